@@ -20,6 +20,8 @@ def run(ck, tier, seed):
             continue
         if p.get("funcs"):
             continue      # bytecode cannot call declared functions; such modules are not compiled by the product
+        if any(s["s"] == "pset" for s, _ in langrun.walk_stmts(p["body"])):
+            continue      # element and field assignment: the compiler reports them as unsupported at every level
         ck.cov["evaluations"] += 6
         for form in ("", "p"):
             base = o.get("vm0" + form)
